@@ -1,7 +1,7 @@
 PROPS["C12"] = prop(
     "exploration",
     "rapid-generated secrets, exhaustive single-bit mutations and attempt histories against reference models "
-    "(issued-token table, HMAC reference, attempt counter, lower-cased login map); thorough tier: the same generators and oracles also run under Go's native coverage-guided fuzzer (rapid.MakeFuzz, 60 s per target, all cores)",
+    "(issued-token table, HMAC reference, attempt counter, lower-cased login map); thorough tier: the same generators and oracles also run under Go's native coverage-guided fuzzer (rapid.MakeFuzz, 60 s per target, all cores); concurrent logins: 2-8 goroutines hammer ONE token authenticator for a bounded number of calls with a generated mix of genuine tokens, forgeries carrying a genuine token's signature and issue-then-verify, judged per call by the issued-token table, once in the normal build and once under the Go race detector (a race report kills the worker and counts as a violation)",
     "a case is non-trivial when it has >=1 accepted secret and >=1 refused secret derived from the accepted one "
     "(token: bit flips / truncations / foreign verifier / expiry of an accepted token; api key: mutations of an accepted key; "
     "code: a right guess accepted and a derived wrong or repeated guess refused; basic: a right password accepted and a derived "
@@ -9,13 +9,18 @@ PROPS["C12"] = prop(
     "Real token/code/basic authenticators and checkAPIKey are driven with generated secrets, every single-bit flip and truncation "
     "of each issued token / API key, generated multi-byte mutations, foreign keys, serials and salts, a virtual clock across expiry, "
     "and generated histories of reset-code and password attempts; each answer is compared with a reference model written from the "
-    "statement. Exhaustive over single-bit flips and truncations of every issued secret, sampled otherwise.",
-    "Trusts the reference models in harness/c12*/c12_test.go, Go's crypto/hmac (used by the reference too), testing/synctest's virtual "
+    "statement. Exhaustive over single-bit flips and truncations of every issued secret, sampled otherwise. "
+    "TestC12TokenConcurrent/TestC12TokenConcurrentRace present genuine and forged tokens (signed fields of one token + signature of another, single-bit changes of the signed fields under the original signature) and issue fresh tokens "
+    "from 2-8 goroutines on the one shared authenticator: no forgery may ever be accepted, every genuine or freshly issued token must yield exactly its issued record, tokens issued under load must verify afterwards on the issuer and on a "
+    "restarted server; under -race any report of unsynchronised access to the authenticator's key state is a violation (interleavings are sampled from the Go scheduler, 2000/400 calls per goroutine).",
+    "Trusts the reference models in harness/c12*/c12_test.go, the Go scheduler to produce overlapping calls and the Go race detector (concurrent units; real clock, lifetimes >= 1 h), Go's crypto/hmac (used by the reference too), testing/synctest's virtual "
     "clock and the fake store adapters (PCache / auth records written from the MySQL adapter's SQL). The authenticators are called directly, except in "
     "TestC12WTokenSession, which presents issued, altered, truncated, expired and restricted tokens to a live session of the world engine "
     "({login} wire path, Session.onLogin) and reads the token handed back; authHttpRequest is not driven.",
     "5/C12", "auth-direct",
     [Unit("TestC12Token", "server/auth/token", quick=5000, thorough=60000, shards_quick=4, shards_thorough=16),
+     Unit("TestC12TokenConcurrent", "server/auth/token", quick=200, thorough=6000, shards_quick=2, shards_thorough=16, crash_is_violation=True, shrink=5, replay_tries=4),
+     Unit("TestC12TokenConcurrentRace", "server/auth/token", race=True, quick=60, thorough=2000, shards_quick=2, shards_thorough=16, crash_is_violation=True, shrink=5, replay_tries=4),
      Unit("TestC12APIKey", "server", quick=5000, thorough=60000, shards_quick=4, shards_thorough=16, fuzz="FuzzC12APIKey", fuzztime=60),
      Unit("TestC12LongPollGate", "server", quick=600, thorough=20000, shards_quick=4, shards_thorough=16),
      Unit("TestC12Code", "server/auth/code", quick=12000, thorough=200000, shards_quick=4, shards_thorough=16),
